@@ -102,6 +102,8 @@ func checkConflictRemoval(c *Ctx, rule string) {
 	if rc == nil || rds == nil {
 		return
 	}
+	// removing one spender of an outpoint filters the whole list of its recorded spenders
+	checkLoopsHaveNoEarlyExit(c, rule, wtxFn(c, rule, "deleteRawUnminedInput"), "removing one spender of an outpoint must consider every recorded spender (a search-and-splice that stops early deletes the whole entry when the spender is not in the list)")
 	// conflicts are found through the unconfirmed-spender index only: every input of every unconfirmed transaction must be in it
 	checkPerIteration(c, rule, wtxFn(c, rule, "insertMemPoolTx"), "TxIn", "putRawUnminedInput", 1,
 		"an input of a newly seen unconfirmed transaction is not registered in the unconfirmed-spender index: when a conflicting transaction confirms, this one (and its descendants) survive and keep counting")
